@@ -75,7 +75,18 @@ def subset_slices(descs, nsub, chooser_factory):
     return b, spec, subs, notes, bufs
 
 
-def judge(descs, nsub, chooser):
+_CDEC = None
+
+
+def compiled_decoder():
+    global _CDEC
+    if _CDEC is None:
+        from pybufrkit.decoder import Decoder
+        _CDEC = Decoder(compiled_template_cache_max=8)
+    return _CDEC
+
+
+def judge(descs, nsub, chooser, compiled=False):
     res = {}
     try:
         b, spec, subs, notes, bufs = subset_slices(descs, nsub, chooser)
@@ -102,6 +113,16 @@ def judge(descs, nsub, chooser):
         kind = 'leak' if all(alone_ok) else 'decode'
         res['viol'] = ('%s:%s' % (kind, d[0]), '%s; each subset alone decodes correctly: %r' % (d[1], alone_ok))
         return res
+    if compiled:
+        # the same independence with template compilation switched on (the compiled statements replay the state changes
+        # without going through the operator dispatch)
+        for rnd in (0, 1):          # first decode compiles, second one runs the cached template
+            sc = S.impl_decode(compiled_decoder(), b)
+            dc = ('decode-raises:' + sc[1], 'joint decoding raised %s: %s' % (sc[1], sc[2][:160])) if sc[0] == 'exc' else \
+                S.compare_subsets(sc[1], subs)
+            if dc:
+                res['viol'] = ('leak-compiled:%s' % dc[0], 'with template compilation: %s' % dc[1])
+                return res
     # nested view per subset must equal the view of the subset decoded alone
     from pybufrkit.renderer import NestedJsonRenderer
     msg = st[2]
@@ -139,7 +160,7 @@ def judge(descs, nsub, chooser):
 def tree_body(descs, env):
     def body(ctx):
         ch = S.Chooser(ctx, env['nsub'], False, thorough=env.get('thorough', False))
-        return judge(descs, env['nsub'], ch)
+        return judge(descs, env['nsub'], ch, env.get('compiled', False))
     return body
 
 
@@ -148,7 +169,7 @@ def struct_body(struct, env):
 
     def body(ctx):
         ch = S.DistinctStructChooser(ctx, env['nsub'], False, queues, free, env['vmap'])
-        return judge(descs, env['nsub'], ch)
+        return judge(descs, env['nsub'], ch, env.get('compiled', False))
     return body
 
 
@@ -245,10 +266,10 @@ def main(tier, seed):
                       not any(t in n for t in ('e031000', 'e000010'))]
     bv = bitmap_variants(tier)
     plan = [
-        ('open-m2', 'tree', opens, dict(nsub=2), 1),
+        ('open-m2', 'tree', opens, dict(nsub=2, compiled=True), 1),
         ('open-m3', 'tree', opens, dict(nsub=3), 0 if tier == 'quick' else 1),
         ('G-m2', 'tree', gpool, dict(nsub=2), 0 if tier == 'quick' else 1),
-        ('bitmap-m2', 'struct', bv, dict(nsub=2, vmap=[0, 1]), 0),
+        ('bitmap-m2', 'struct', bv, dict(nsub=2, vmap=[0, 1], compiled=True), 0),
         ('bitmap-m2-rev', 'struct', bv, dict(nsub=2, vmap=[1, 0]), 0),
         ('bitmap-m3', 'struct', bv, dict(nsub=3, vmap=[0, 1, 0]), 0),
     ]
